@@ -45,6 +45,7 @@ import Penguin.Props.C18
 import Penguin.Model.HttpProxy
 import Penguin.Lemmas.HttpProxy
 import Penguin.Lemmas.RemoteSpecKind
+import Penguin.Model.Dispatch
 
 namespace Penguin.C01
 open Penguin Penguin.Constants
@@ -1233,5 +1234,74 @@ example : remoteHelpTproxyPort = 1234 ∧ remoteTproxyDefaultPort = 8081 ∧
     parse plainOracle "tproxy".toList = .ok ⟨.inet "127.0.0.1".toList 8081, .tproxy, .tcp⟩ := by decide
 
 end RemoteSpecifications
+
+end Penguin.C01
+
+namespace Penguin.C01
+
+/-! ### Which handler serves which remote (`handle_remote`, `Model/Dispatch.lean`) -/
+section Dispatch
+open Penguin.RemoteSpec Penguin.Dispatch
+
+private theorem parse_inv (o : Oracle) (s : Str) (r : Remote) (h : parse o s = .ok r) :
+    ((r.remoteAddr = .socks ∨ r.remoteAddr = .http) → r.protocol = .tcp) ∧
+    (r.localAddr.isDomainSocket = true → r.protocol = .tcp ∧ r.remoteAddr ≠ .tproxy) ∧
+    ¬ (r.localAddr = .stdio ∧ r.remoteAddr = .tproxy) := by
+  obtain ⟨⟨_, _, h3⟩, h4, h5⟩ := parse_ok_invariants h
+  exact ⟨h4, h5, h3⟩
+
+/-- Whatever text the user gives: if it parses, `handle_remote` never reaches its
+    `unreachable!("clap should have rejected this combination")` — proved from what the parser guarantees, not assumed. -/
+theorem dispatch_never_unreachable_on_parsed (o : Oracle) (s : Str) (r : Remote) (h : parse o s = .ok r) :
+    dispatch r ≠ .unreachable := by
+  obtain ⟨_, h2, h3⟩ := parse_inv o s r h
+  obtain ⟨la, ra, pr⟩ := r
+  cases la <;> cases ra <;> cases pr <;> simp_all [dispatch, LocalSpec.isDomainSocket]
+
+/-- "The parser guarantees that the protocol is TCP" (the comment on the six arms that ignore the protocol): for a
+    parsed remote the handler serves datagrams exactly when the remote was given as `/udp` — a UDP remote is never
+    silently served by a TCP handler, nor the reverse. -/
+theorem dispatch_udp_remote_gets_datagram_handler (o : Oracle) (s : Str) (r : Remote) (h : parse o s = .ok r) :
+    (dispatch r).isUdp = true ↔ r.protocol = .udp := by
+  obtain ⟨h1, h2, h3⟩ := parse_inv o s r h
+  obtain ⟨la, ra, pr⟩ := r
+  cases la <;> cases ra <;> cases pr <;> simp_all [dispatch, Handler.isUdp, LocalSpec.isDomainSocket]
+
+/-- The fixed-target handlers are started with exactly the listener and the target of the remote (every `Remote`
+    value, parsed or not): a TCP forwarder on the remote's own listener for the remote's own (host, port); a UDP
+    forwarder on the remote's own local address for its own target. -/
+theorem dispatch_target (r : Remote) :
+    (∀ l rh rp, dispatch r = .tcpForward l rh rp → r.remoteAddr = .inet rh rp ∧
+        (r.localAddr = .stdio ∧ l = .stdio ∨ (∃ p, r.localAddr = .domainSocket p ∧ l = .uds p) ∨
+         (∃ lh lp, r.localAddr = .inet lh lp ∧ l = .tcp lh lp ∧ r.protocol = .tcp))) ∧
+    (∀ lh lp rh rp, dispatch r = .udpForward lh lp rh rp →
+        r.localAddr = .inet lh lp ∧ r.remoteAddr = .inet rh rp ∧ r.protocol = .udp) ∧
+    (∀ rh rp, dispatch r = .udpStdio rh rp → r.localAddr = .stdio ∧ r.remoteAddr = .inet rh rp ∧ r.protocol = .udp) := by
+  obtain ⟨la, ra, pr⟩ := r
+  cases la <;> cases ra <;> cases pr <;> simp [dispatch] <;> (intros; subst_vars; simp)
+
+/-- Two remotes occupy the same local end only if they have the same local address AND the same transport: a TCP
+    remote and a UDP remote on one local host and port — `5353:h:53` and `5353:h:53/udp`, separate name spaces —
+    occupy different ends (both are opened: what seeded change C01-11 broke with a registry keyed by host:port). -/
+theorem dispatch_local_ends_distinct (r1 r2 : Remote)
+    (h : (dispatch r1).localEnd = (dispatch r2).localEnd) (hn : (dispatch r1).localEnd ≠ .none) :
+    r1.localAddr = r2.localAddr ∧ (dispatch r1).isUdp = (dispatch r2).isUdp := by
+  obtain ⟨la1, ra1, pr1⟩ := r1
+  obtain ⟨la2, ra2, pr2⟩ := r2
+  cases la1 <;> cases ra1 <;> cases pr1 <;> cases la2 <;> cases ra2 <;> cases pr2 <;>
+    simp_all [dispatch, Handler.localEnd, Handler.isUdp]
+
+/-- Non-vacuity: the texts parse, the handlers are the expected ones, a TCP and a UDP remote on one port differ. -/
+example : parse plainOracle "5353:h:53".toList = .ok ⟨.inet "0.0.0.0".toList 5353, .inet "h".toList 53, .tcp⟩ ∧
+    dispatch ⟨.inet "0.0.0.0".toList 5353, .inet "h".toList 53, .tcp⟩ = .tcpForward (.tcp "0.0.0.0".toList 5353) "h".toList 53 ∧
+    parse plainOracle "5353:h:53/udp".toList = .ok ⟨.inet "0.0.0.0".toList 5353, .inet "h".toList 53, .udp⟩ ∧
+    dispatch ⟨.inet "0.0.0.0".toList 5353, .inet "h".toList 53, .udp⟩ = .udpForward "0.0.0.0".toList 5353 "h".toList 53 ∧
+    (dispatch ⟨.inet "0.0.0.0".toList 5353, .inet "h".toList 53, .tcp⟩).localEnd ≠
+      (dispatch ⟨.inet "0.0.0.0".toList 5353, .inet "h".toList 53, .udp⟩).localEnd := by decide
+/-- The unreachable arm IS reachable for a `Remote` value the parser never produces (so the hypothesis matters). -/
+example : dispatch ⟨.stdio, .tproxy, .tcp⟩ = .unreachable := by decide
+example : (dispatch ⟨.domainSocket "/p".toList, .inet "h".toList 1, .udp⟩).isUdp = false := by decide
+
+end Dispatch
 
 end Penguin.C01
